@@ -53,3 +53,56 @@ mut("c20_fm_not_restored", "C20", "library.py", _CTX_TAIL, '''        try:
                 if not key.startswith("_"):
                     setattr(self, key, rollback_settings[key])
 ''', "factory manager not restored")
+
+# ---------------------------------------------------------------- C12
+_DEFUZZ_CALL = '''        value = self.defuzzifier.defuzzify(self.fuzzy, self.minimum, self.maximum)
+
+        # previous value is the last element of the value at t
+        self.previous_value = np.take(self.value, -1).astype(float)
+'''
+mut("c12_prev_before_defuzz", "C12", "variable.py", _DEFUZZ_CALL, '''        # previous value is the last element of the value at t
+        self.previous_value = np.take(self.value, -1).astype(float)
+        value = self.defuzzifier.defuzzify(self.fuzzy, self.minimum, self.maximum)
+''', "previous_value overwritten before a defuzzifier that may raise (fault-only detectable)")
+mut("c12_prev_from_first", "C12", "variable.py", "self.previous_value = np.take(self.value, -1).astype(float)",
+    "self.previous_value = np.take(self.value, 0).astype(float)", "previous value from the first row of the last batch")
+mut("c12_commit_no_clip", "C12", "variable.py", '''        # Committing the value
+        self.value = value
+''', '''        # Committing the value
+        self._value = value
+''', "commit bypasses the clipping setter")
+mut("c12_fill_from_nan", "C12", "variable.py", '''                previous_value = self.previous_value
+                for value_i in iterator:''', '''                previous_value = nan
+                for value_i in iterator:''', "fill-forward does not start from the previous call's value")
+mut("c12_no_carry_in_batch", "C12", "variable.py", '''                    else:
+                        previous_value = value_i  # type: ignore
+''', '''                    else:
+                        pass
+''', "fill-forward uses the previous call's value only (no carry inside a batch)")
+mut("c12_clear_keeps_prev", "C12", "variable.py", '''        self.fuzzy.clear()
+        self.previous_value = nan
+        self.value = nan
+''', '''        self.fuzzy.clear()
+        self.value = nan
+''', "clear() keeps previous_value")
+mut("c12_disabled_defuzzified", "C12", "variable.py", '''        if not self.enabled:
+            return
+
+        if not self.defuzzifier:''', '''        if not self.defuzzifier:''', "disabled variable is defuzzified")
+mut("c12_fuzzy_cleared", "C12", "variable.py", '''        # Committing the value
+        self.value = value
+''', '''        # Committing the value
+        self.value = value
+        self.fuzzy.clear()
+''', "defuzzify clears the fuzzy output")
+mut("c12_default_first", "C12", "variable.py", '''        # Locking previous values
+        if self.lock_previous:''', '''        if not np.isnan(self.default_value):
+            value[np.isnan(value)] = self.default_value  # type: ignore
+        # Locking previous values
+        if self.lock_previous:''', "default applied before lock-previous")
+mut("c12_clip_before_default", "C12", "variable.py", '''        # Applying default values
+        if not np.isnan(self.default_value):''', '''        if self.lock_range:
+            value = np.clip(value, self.minimum, self.maximum)
+            self._value = None
+        # Applying default values
+        if not np.isnan(self.default_value):''', "clip before default, commit unclipped default")
